@@ -11,7 +11,7 @@ out = open(sys.argv[1]).read()
 base = json.load(open('/root/.vp/BASELINE.json'))
 stable = set(base['stable_pass'])
 passed = set()
-for m in re.finditer(r'^\s+PASS \[[^\]]*\]\s+(?:\(\s*\d+/\d+\)\s+)?(\S+) (\S+)', out, re.M):
+for m in re.finditer(r'^\s+(?:PASS|LEAK) \[[^\]]*\]\s+(?:\(\s*\d+/\d+\)\s+)?(\S+) (\S+)', out, re.M):
     passed.add('%s::%s' % (m.group(1), m.group(2)))
 missing = sorted(stable - passed)
 print('stable tests: %d, passed now: %d, missing: %d' % (len(stable), len(stable & passed), len(missing)))
